@@ -86,6 +86,33 @@ def crafted(rng, tier):
                 body[npts_off:npts_off + 4] = struct.pack("<i", big)
                 out.append(("unbacked type %d %s M, %d points" % (code, "with" if with_m else "without", big),
                             refesri.encode_header(code, [0] * 8, 50 + 4 + words) + bytes(body) + bytes(64), None))
+    # multi-part records that declare millions of points but NO part (or a single part starting at the declared point
+    # count): nothing backs the count, the record holds only its ranges, and every length field is consistent with that
+    for code in (13, 15, 31, 3, 23, 25):
+        for with_m in ([True, False] if code in refesri.HAS_M else [False]):
+            for big in (1 << 22, (1 << 27) + 5):
+                for parts in ([], [big]):
+                    body = struct.pack("<i", code) + struct.pack("<4d", 0, 0, 1, 1) + struct.pack("<ii", len(parts), big)
+                    body += b"".join(struct.pack("<i", p) for p in parts)
+                    if code == 31:
+                        body += struct.pack("<i", 0) * len(parts)
+                    if code in refesri.HAS_Z:
+                        body += struct.pack("<2d", 0, 0)
+                    if code in refesri.HAS_M and with_m:
+                        body += struct.pack("<2d", 0, 0)
+                    # (a) every length field says what the file holds; (b) every length field follows the size formula
+                    # for the declared counts (what a reader's consistency check expects), the data ends after the ranges
+                    formula = (44 + 4 * len(parts) * (2 if code == 31 else 1) + 16 * big + ((16 + 8 * big) if code in refesri.HAS_Z else 0)
+                               + ((16 + 8 * big) if (code in refesri.HAS_M and with_m) else 0))
+                    for words in (len(body) // 2, formula // 2):
+                        if words >= (1 << 31):
+                            continue
+                        rec = struct.pack(">ii", 1, words) + body
+                        shp = refesri.encode_header(code, [0] * 8, min((1 << 31) - 1, 50 + 4 + words)) + rec
+                        shx = refesri.encode_header(code, [0] * 8, 54) + struct.pack(">ii", 50, words)
+                        label = "type %d, %d part(s), %d points declared, none present (%d words announced)" % (code, len(parts), big, words)
+                        out.append((label, shp, None))
+                        out.append((label, shp, shx))
     # honest records, fully backed and valid, made of hundreds of parts: what the reader keeps per part must be
     # proportional to the part, not to the record
     for code, nparts, per in ((3, 400, 25), (15, 300, 12), (31, 300, 10), (23, 1500, 4)):
